@@ -459,4 +459,26 @@ theorem dispatch_spec (hS : Sound I B) (ps : PS σ) (flush : Bool) :
             exact ⟨.prefix hne hnoL hnoA a1 a2 a3 a4, s1, s2⟩
 end
 
+/-! ### non-vacuity -/
+
+/-- the toy world has sound lookups over its flat binding list -/
+theorem toy_sound : Sound toyI (fun _ => toyBs) :=
+  ⟨fun _ _ => rfl, fun _ _ => rfl, fun _ _ _ => rfl, fun _ _ => rfl, fun _ _ => rfl, fun _ _ _ => rfl⟩
+
+/-- each branch of the rule occurs in the toy world:
+    `a` waits (for `a b`), `a` + timeout fires h0, `b` fires eager h3, `a c` re-examines and fires h0
+    with the one-key prefix, `c` is dropped when condition 0 is off and goes to `Any` when it is on -/
+example : (decideOf toyI { w := false, buffer := [.key 2 1] } false).2 matches .wait := by decide
+example : (decideOf toyI { w := false, buffer := [.key 2 1] } true).2 matches .fire _ 1 true := by decide
+example : (decideOf toyI { w := true, buffer := [.key 3 1] } false).2 matches .fire _ 1 true := by decide
+example : (decideOf toyI { w := false, buffer := [.key 2 1, .key 5 2] } false).2
+    matches .fire _ 1 false := by decide
+example : (decideOf toyI { w := false, buffer := [.key 5 2] } false).2 matches .dropOne := by decide
+example : (decideOf toyI { w := true, buffer := [.key 5 2] } false).2 matches .fire _ 1 true := by decide
+
+/-- specificity: with condition 0 on, `b` matches both `Any` (h2) and `b` (h3); the one without
+    wildcard is chosen although `Any` … is registered earlier, and `Chosen` is satisfiable -/
+example : Chosen toyBs (PA (fun f => f.eval fun _ => true) [3]) toyBs[3] :=
+  ⟨toyBs.take 3, [], rfl, by decide, by simp, by decide⟩
+
 end Ptk.C04
